@@ -211,6 +211,30 @@ func sequences(n int, full, pipelined bool) func() {
 		if rs := b.Replies(idb); len(rs) != 1 || rs[0].Hdr.Type != net.Error || !b.EOF {
 			vrt.Failf("second-connection-not-refused/"+ak.name, "second connection: %d answers, closed=%v", len(rs), b.EOF)
 		}
+		// a third connection authenticates properly: the first one, if it never
+		// presented accepted credentials and is still open, gains nothing
+		if ak.accept("u", "t") && !authed && !a.EOF {
+			c := w.RawPeer()
+			c.StartDrain()
+			if !c.Authenticate("u", "t") {
+				vrt.Failf("good-credentials-refused/"+ak.name, "a connection presenting accepted credentials was not authenticated")
+			} else {
+				idc := c.NextID()
+				c.Send(net.Call, 1, 1, 100, idc, fx.Int32(4))
+				vrt.Quiesce()
+				if rs := c.Replies(idc); len(rs) != 1 || rs[0].Hdr.Type != net.Reply {
+					vrt.Failf("authenticated-connection-refused/"+ak.name, "an authenticated connection cannot call the service")
+				}
+				before := w.Root.Total()
+				ida := a.NextID()
+				a.Send(net.Call, 1, 1, 100, ida, fx.Int32(3))
+				vrt.Quiesce()
+				if w.Root.Total() != before {
+					vrt.Failf("authenticated-by-another-connection/"+ak.name, "after another connection authenticated, the unauthenticated first connection reached the service; frames %v", seq)
+				}
+				vrt.Flag("third-connection-authenticated")
+			}
+		}
 		fx.Settle()
 		vrt.Observe("%s authed=%v ran=%d eof=%v", ak.name, authed, w.Root.Total(), a.EOF)
 	}
@@ -229,7 +253,7 @@ func closedEarlier(seq []frame, i int) bool {
 
 func init() {
 	reg.Register(&reg.Scenario{Property: "C06", Name: "sequences-2", Body: sequences(2, false, false), Quick: 0, Thorough: 1,
-		Doc: "3 authenticators x all sequences of <=2 frames (reduced alphabet) from an unauthenticated peer, each step to quiescence; then a second unauthenticated connection", MustFlag: []string{"model-authenticated", "service-reached"}})
+		Doc: "3 authenticators x all sequences of <=2 frames (reduced alphabet) from an unauthenticated peer, each step to quiescence; then a second unauthenticated connection", MustFlag: []string{"model-authenticated", "service-reached", "third-connection-authenticated"}})
 	reg.Register(&reg.Scenario{Property: "C06", Name: "single-full", Body: sequences(1, true, false), Quick: 1, Thorough: 2,
 		Doc: "3 authenticators x every single frame of the full alphabet (8 types x 7 targets x payload kinds)"})
 	reg.Register(&reg.Scenario{Property: "C06", Name: "pipelined-2", Body: sequences(2, false, true), Quick: 0, Thorough: 1,
